@@ -100,7 +100,17 @@ def search(payload):
     for ma, mb in gen.twin_makers():
         tw += [ma(), mb(), gen.mk("and", ma(), mb()), gen.mk("not", mb()), ma()]
     ps = ps + tw + tw[::-1]
-    values = VALUES + [v for v in gen.TWIN_VALUES if not any(type(v) is type(w) and v == w for w in VALUES)]
+    # large / precise parameters and LONG chains of atoms with dedicated duals
+    big_mk, big_sets = gen.big_atom_makers()
+    bigs = [m() for m in big_mk + big_sets]
+    from predicate.standard_predicates import eq_p as _eq, ne_p as _ne
+    for k in (8, 9, 12):
+        c_and, c_or = _ne(0), _eq(0)
+        for i in range(1, k):
+            c_and, c_or = c_and & _ne(i), c_or | _eq(10 * i)
+        bigs += [c_and, c_or]
+    ps = ps + bigs
+    values = VALUES + [v for v in gen.TWIN_VALUES if not any(type(v) is type(w) and v == w for w in VALUES)] + gen.BIG_VALUES + gen.BIG_SETS + [8, 9, 10, 80, 90, 110]
     fails, n = [], 0
     for p in ps:
         try:
